@@ -15,6 +15,8 @@ import (
 	"errors"
 	"fmt"
 	"io"
+	"regexp"
+	"sync"
 )
 
 const dumpName = "mosdns_cache_v2"
@@ -190,6 +192,11 @@ func gunzipAll(b []byte) (string, []byte, error) {
 	return zr.Name, raw, nil
 }
 
+var (
+	unknownVersionName = regexp.MustCompile(`^mosdns_cache_v[0-9]+$`)
+	unknownVersionOnce sync.Once
+)
+
 // decodeDump is the independent reader.
 func decodeDump(b []byte) (*decodedDump, error) {
 	name, raw, err := gunzipAll(b)
@@ -198,6 +205,15 @@ func decodeDump(b []byte) (*decodedDump, error) {
 	}
 	d := &decodedDump{Name: name, RawLen: len(raw)}
 	if name != dumpName {
+		if rep != nil && unknownVersionName.MatchString(name) {
+			// a well-formed header of ANOTHER format version: this tree writes a dump format the
+			// independent reader does not know (key or block layout may differ). Nothing about
+			// fidelity can be decided with a reader for v2: inconclusive, not a finding.
+			unknownVersionOnce.Do(func() {
+				rep.Inconclusive("this tree writes dump format %q; the independent reader of this check knows %q only - the check has to be ported to the new format before it can decide C19", name, dumpName)
+				rep.Finish()
+			})
+		}
 		return d, fmt.Errorf("gzip name %q", name)
 	}
 	if err := decodeRaw(raw, d); err != nil {
